@@ -884,7 +884,7 @@ func (m *PktModel) runProbes(w *world.World, st PState, counters map[string]int)
 		probes = append(probes, m.cleanProbes(w, st.G)...)
 	}
 	for _, pr := range probes {
-		if pr.MustFail == "" || !(m.Props[pr.MustFail] || (pr.AlsoFail != "" && m.Props[pr.AlsoFail])) {
+		if pr.MustFail == "" || !(m.Props[pr.MustFail] || (pr.AlsoFail != "" && m.Props[pr.AlsoFail]) || (m.Props["C19"] && m.ProbeMode == "tx")) {
 			continue
 		}
 		c := w.C(pr.Chain)
